@@ -379,6 +379,9 @@ func (c *genctx) genServerScenario(bad bool) *scenario {
 		}
 		p := &reqPlan{sid: sid, body: body}
 		p.fields = c.genFields(method, body != nil, total)
+		// the request says which stream it is on, so that the handler's view can be matched to its
+		// stream even when several are dispatched in one step
+		p.fields = append(p.fields, [2]string{"x-tag", fmt.Sprint(sid)})
 		if body != nil && r.chance(20) {
 			p.trailers = [][2]string{{"x-trailer", "t"}}
 		}
@@ -801,6 +804,91 @@ func (c *genctx) genManyStreams() *scenario {
 	return sc
 }
 
+// genGated: the read loop runs ahead of the stream loop (held at a tick gate), optionally ending in
+// a connection error that the read loop finds while requests are still queued for the stream loop.
+func (c *genctx) genGated() *scenario {
+	r := c.r
+	sc := &scenario{cfg: srvCfg{maxStreams: r.pick(100, 100, 2), maxHeaderList: 1 << 20, maxBody: 4 << 20}}
+	enc := newHenc(r)
+	req := func(sid uint32, withBody bool) {
+		fs := [][2]string{{":method", "GET"}, {":scheme", "https"}, {":path", pathVocab[r.intn(4)]}, {"x-tag", fmt.Sprint(sid)}}
+		if withBody {
+			fs[0][1] = "POST"
+		}
+		u := c.headerUnit(sid, enc.block(fs), !withBody, true)
+		sc.evs = append(sc.evs, u.evs...)
+		if withBody {
+			sc.evs = append(sc.evs, c.dataUnit(sid, r.bytes(r.pick(1, 100, 1000)), true).evs...)
+		}
+	}
+	sid := uint32(1)
+	var ids []uint32
+	for i := r.intn(3); i > 0; i-- {
+		req(sid, r.chance(30))
+		ids = append(ids, sid)
+		sid += 2
+	}
+	if r.chance(40) && len(ids) > 0 {
+		sc.evs = append(sc.evs, event{kind: 'D', sid: ids[0], resp: c.genResp()})
+		ids = ids[1:]
+	}
+	sc.evs = append(sc.evs, event{kind: 'g'})
+	for i := 1 + r.intn(4); i > 0; i-- {
+		switch r.intn(6) {
+		case 0, 1, 2:
+			req(sid, r.chance(30))
+			ids = append(ids, sid)
+			sid += 2
+		case 3:
+			f := newFrame('W', 0, uint32(r.pick(0, 1, 3)))
+			f.inc = uint32(r.pick(1, 1000))
+			sc.evs = append(sc.evs, frameEv(f))
+		case 4:
+			f := newFrame('S', 0, 0)
+			f.settings = [][2]uint32{{4, uint32(r.pick(0, 100, 65535, 100000))}}
+			sc.evs = append(sc.evs, frameEv(f))
+		default:
+			f := newFrame('G', 0, 0)
+			f.payload = r.bytes(8)
+			sc.evs = append(sc.evs, frameEv(f))
+		}
+	}
+	rawFrame := func(typ byte, flags byte, sid uint32, payload []byte) []byte {
+		h := []byte{byte(len(payload) >> 16), byte(len(payload) >> 8), byte(len(payload)), typ, flags}
+		h = binary.BigEndian.AppendUint32(h, sid)
+		return append(h, payload...)
+	}
+	switch r.intn(7) {
+	case 0: // WINDOW_UPDATE(0) with increment 0: the read loop answers with GOAWAY itself
+		sc.evs = append(sc.evs, frameEv(newFrame('W', 0, 0)))
+	case 1:
+		sc.evs = append(sc.evs, event{kind: 'B', raw: rawFrame(6, 0, 0, r.bytes(7)), class: "goaway:6"})
+	case 2:
+		f := newFrame('C', 4, sid)
+		f.payload = []byte{0x82}
+		sc.evs = append(sc.evs, frameEv(f))
+	case 3:
+		f := newFrame('H', 5, sid+1) // even id
+		f.payload = []byte{0x82, 0x84, 0x87}
+		sc.evs = append(sc.evs, frameEv(f))
+	case 4: // GOAWAY from the peer
+		f := newFrame('A', 0, 0)
+		f.dep = 0
+		sc.evs = append(sc.evs, frameEv(f))
+	}
+	sc.evs = append(sc.evs, event{kind: 'u'})
+	for _, id := range ids {
+		if r.chance(80) {
+			sc.evs = append(sc.evs, event{kind: 'D', sid: id, resp: c.genResp()})
+		}
+	}
+	f := newFrame('W', 0, 0)
+	f.inc = 1 << 22
+	sc.evs = append(sc.evs, frameEv(f))
+	sc.evs = append(sc.evs, event{kind: 'E'})
+	return sc
+}
+
 func genServer(c *genctx) {
 	n := c.n
 	for i := 0; i < n; i++ {
@@ -810,6 +898,9 @@ func genServer(c *genctx) {
 		case i%50 == 7:
 			sc = c.genManyStreams()
 			kind = "many-streams"
+		case i%16 == 5:
+			sc = c.genGated()
+			kind = "gated-read-loop-ahead"
 		case i%4 == 1:
 			sc = c.genServerScenario(true)
 			kind = "offence-message"
